@@ -112,8 +112,26 @@ def gen_cases(ctx, n):
         spec = U.gen_profile(rng, small=(i % 3 == 0))
         g = U.HistoryGen(rng, U.flatten(spec), hooks_p=0.2 if i % 3 else 0.0, allow_raise=(i % 10 == 0), link_events=True)
         n = rng.randrange(8, 28)
-        cases.append((spec, g.sub_history(n) if i % 5 == 1 else g.exec_history(n) if i % 5 == 2
-                      else g.hook_history(n) if i % 5 == 3 else g.history(n)))
+        evs = (g.sub_history(n) if i % 5 == 1 else g.exec_history(n) if i % 5 == 2
+               else g.hook_history(n) if i % 5 == 3 else g.history(n))
+        if i % 2 == 0 and g.connected:
+            # every read procedure on characteristics with read security requirements (authorization included),
+            # whatever the rest of the history did
+            guarded = [r for r in U.flatten(spec) if r["kind"] == "KValue" and (r["sec"] & 0x0F)]
+            for r in rng.sample(guarded, min(len(guarded), 3)):
+                evs.append({"op": "req", "req": ("Read", r["handle"]), "hooks": {}})
+                evs.append({"op": "req", "req": ("ReadBlob", r["handle"], rng.choice([0, len(r["value"]), 1])), "hooks": {}})
+        elif i % 2 == 1 and g.connected:
+            # every write procedure on characteristics with security requirements, under a random link state
+            guarded = [r for r in U.flatten(spec) if r["kind"] == "KValue" and r["sec"]]
+            for r in rng.sample(guarded, min(len(guarded), 2)):
+                data = U.rand_bytes(rng, rng.randrange(1, 6))
+                evs += [{"op": "sec", "enc": rng.random() < 0.5, "auth": rng.random() < 0.5},
+                        {"op": "req", "req": (rng.choice(["Write", "WriteCmd"]), r["handle"], data), "hooks": {}},
+                        {"op": "req", "req": ("PrepareWrite", r["handle"], 0, data[::-1]), "hooks": {}},
+                        {"op": "req", "req": ("ExecuteWrite", 1), "hooks": {}},
+                        {"op": "req", "req": ("Read", r["handle"]), "hooks": {}}]
+        cases.append((spec, evs))
     return cases
 
 
